@@ -72,6 +72,11 @@ Theorem C12_bitpacked_empty_run_overread_refuted : c_read_bitpacked [] 1 3 32 4 
 Proof. exact read_bitpacked_empty_input_oob. Qed.
 Print Assumptions C12_bitpacked_empty_run_overread_refuted.
 
+Theorem C12_unpadded_last_group_overread_refuted :
+  hyb_dec false 8 1 [3; 5] = Some ([5], []) /\ c_read_hybrid [3; 5] 8 2 4 4 = OOB.
+Proof. exact unpadded_last_group_overread. Qed.
+Print Assumptions C12_unpadded_last_group_overread_refuted.
+
 Theorem C12_unpack_byte_array_overrun_refuted : c_unpack_byte_array [3; 0; 0; 0; 97; 98] 1 = UOOB.
 Proof. exact unpack_byte_array_truncated_oob. Qed.
 Print Assumptions C12_unpack_byte_array_overrun_refuted.
